@@ -5568,7 +5568,8 @@ class CodegenCtx:
             if chr(i) in ["\\", '"']:
                 result += "\\" + chr(i)
             elif not (32 <= i < 127):
-                result += "\\x{:02x}".format(i)
+                # three digit octal escapes can't absorb a following (hex) digit character, unlike \x
+                result += "\\{:03o}".format(i)
             else:
                 result += chr(i)
         return result
